@@ -7,6 +7,8 @@ package main
 //   hook     inside the k-th yield hook of the operation (feeder loops, parallel chunker),
 //   call     right before / right after the k-th HasChunk, StoreChunk or GetChunk call,
 //   digest   while the k-th chunk digest is computed,
+//   (call and tail also with context-bound stores: a request in flight when the context is cancelled, and
+//   every later one, fails instead of completing)
 //   tail     after the feeder has handed out the last job: the last n calls of a kind are held at a
 //            barrier until all of them are in flight (or 50 ms passed), then the context is cancelled
 //            and the calls are released.
@@ -53,15 +55,16 @@ func (cc c06Cancel) tag() string {
 }
 
 type c06CancelCase struct {
-	Op      string    `json:"op"` // copy | chop | chunkstream | indexfromfile | make
-	N       int       `json:"n"`
-	BlobHex string    `json:"blob_hex"`
-	Sizes   []int     `json:"sizes"`
-	Min     uint64    `json:"min,omitempty"`
-	Avg     uint64    `json:"avg,omitempty"`
-	Max     uint64    `json:"max,omitempty"`
-	Cancel  c06Cancel `json:"cancel"`
-	Level   string    `json:"level"` // "library-cancel"
+	Op       string    `json:"op"` // copy | chop | chunkstream | indexfromfile | make
+	N        int       `json:"n"`
+	BlobHex  string    `json:"blob_hex"`
+	Sizes    []int     `json:"sizes"`
+	Min      uint64    `json:"min,omitempty"`
+	Avg      uint64    `json:"avg,omitempty"`
+	Max      uint64    `json:"max,omitempty"`
+	Cancel   c06Cancel `json:"cancel"`
+	CtxBound bool      `json:"ctx_bound,omitempty"` // stores bound to the context: a call fails once the context is done
+	Level    string    `json:"level"`               // "library-cancel"
 
 	Got    string         `json:"impl_result,omitempty"`
 	Detail string         `json:"detail,omitempty"`
@@ -90,6 +93,7 @@ func (d cancelDigest) Algorithm() crypto.Hash { return d.HashAlgorithm.Algorithm
 // cancelStore wraps a store: counts calls per kind, cancels at the k-th call of a kind (before or
 // after the inner call) or holds the last n calls of a kind at a barrier, cancels, releases.
 type cancelStore struct {
+	ctx    context.Context // non-nil: the store is bound to this context
 	inner  desync.WriteStore
 	cc     c06Cancel
 	cancel func()
@@ -137,20 +141,31 @@ func (s *cancelStore) leave(kind string, num int) {
 		s.cancel()
 	}
 }
+func (s *cancelStore) aborted() bool { return s.ctx != nil && s.ctx.Err() != nil }
+
 func (s *cancelStore) GetChunk(id desync.ChunkID) (*desync.Chunk, error) {
 	n := s.enter("get")
+	if s.aborted() {
+		return nil, errCtxBound
+	}
 	c, err := s.inner.GetChunk(id)
 	s.leave("get", n)
 	return c, err
 }
 func (s *cancelStore) HasChunk(id desync.ChunkID) (bool, error) {
 	n := s.enter("has")
+	if s.aborted() {
+		return false, errCtxBound
+	}
 	ok, err := s.inner.HasChunk(id)
 	s.leave("has", n)
 	return ok, err
 }
 func (s *cancelStore) StoreChunk(c *desync.Chunk) error {
 	n := s.enter("store")
+	if s.aborted() {
+		return errCtxBound
+	}
 	err := s.inner.StoreChunk(c)
 	s.leave("store", n)
 	return err
@@ -190,6 +205,9 @@ func c06CancelExec(a vh.Args, c *c06CancelCase, totals map[string]int) (idx desy
 	}
 	mk := func(inner desync.WriteStore) *cancelStore {
 		s := &cancelStore{inner: inner, cc: c.Cancel, cancel: doCancel, calls: map[string]int{}, gate: make(chan struct{})}
+		if c.CtxBound {
+			s.ctx = ctx
+		}
 		if c.Cancel.Mode == "tail" {
 			s.tailN = c.N
 			if t := totals[c.Cancel.Kind]; t < s.tailN {
@@ -291,7 +309,10 @@ func c06CancelCheck(a vh.Args, r *vh.Result, c *c06CancelCase, totals map[string
 		return err
 	}
 	in := bkInput{Blob: vh.UnHex(c.BlobHex), Sizes: c.Sizes}
-	key := fmt.Sprintf("cancel|%s|%d|%d|%s", c.Op, c.N, len(in.Blob), c.Cancel.tag())
+	key := fmt.Sprintf("cancel|%s|%d|%d|%s|%v", c.Op, c.N, len(in.Blob), c.Cancel.tag(), c.CtxBound)
+	if c.CtxBound {
+		r.Dist("cancel-store:context-bound")
+	}
 	r.Count(key, c.Fired)
 	r.Dist("cancel-op:" + c.Op)
 	r.Dist("cancel-mode:" + c.Cancel.Mode)
@@ -314,7 +335,7 @@ func c06CancelCheck(a vh.Args, r *vh.Result, c *c06CancelCase, totals map[string
 		}
 		if d != "" {
 			c.Detail = d
-			r.Fail("predicate", c.Op+"/nil-after-cancel-but-incomplete", fmt.Sprintf("%s (n=%d) returned nil although the context was cancelled (%s) and the result is incomplete: %s", c.Op, c.N, c.Cancel.tag(), d), c)
+			r.Fail("predicate", c.Op+"/nil-after-cancel-but-incomplete", fmt.Sprintf("%s (n=%d) returned nil although the context was cancelled (%s%s) and the result is incomplete: %s", c.Op, c.N, c.Cancel.tag(), map[bool]string{true: ", context-bound stores", false: ""}[c.CtxBound], d), c)
 		}
 	}
 	return nil
@@ -377,6 +398,14 @@ func c06Cancels(a vh.Args, r *vh.Result, rng *vh.Rand) error {
 					c.N, c.Cancel = n, cc
 					if err := c06CancelCheck(a, r, &c, base.Calls); err != nil {
 						return err
+					}
+					// the same point with context-bound stores (in-flight and later requests fail after the cancel)
+					if op != "indexfromfile" && (cc.Mode == "tail" || (cc.Mode == "call" && !cc.After && rng.Chance(1, 2))) {
+						cb := c0
+						cb.N, cb.Cancel, cb.CtxBound = n, cc, true
+						if err := c06CancelCheck(a, r, &cb, base.Calls); err != nil {
+							return err
+						}
 					}
 				}
 			}
